@@ -30,7 +30,7 @@ Fixpoint mismatches (ms os : list out) (idx : nat) : list nat :=
 
 (* indices of the ops whose observed output differs from the model's *)
 Definition check_run (ops : list op) (obs : list out) : list nat :=
-  mismatches (outs_from init ops) obs 0.
+  mismatches (routs_from (init, []) ops) obs 0.
 
 (* several scenarios in one file: index = 1000 * scenario + op *)
 Fixpoint check_runs (cs : list (list op * list out)) (k : nat) : list nat :=
@@ -72,3 +72,29 @@ Fixpoint check_glob (cs : list (name * name * bool)) (idx : nat) : list nat :=
   | [] => []
   | (p, s, b) :: r => (if Bool.eqb (glob_match p s) b then [] else [idx]) ++ check_glob r (S idx)
   end.
+
+(* the real utils.CreateStreamId against the model's formula: [htbl] = xxhash of the index names as
+   computed by the harness (external function as an observed table); obs = (org, index, real id string).
+   index i: the real string differs from sid_str; index 1000+i: some j>i where "ids equal" and
+   "pairs equal" disagree (on the REAL strings). *)
+Definition hlook (htbl : list (name * N)) (t : name) : N :=
+  match find (fun e => name_eqb (fst e) t) htbl with Some e => snd e | None => 0 end.
+
+Fixpoint check_sid_str (htbl : list (name * N)) (obs : list (N * name * list N)) (idx : nat) : list nat :=
+  match obs with
+  | [] => []
+  | (X, t, str) :: r =>
+    (if name_eqb (sid_str (hlook htbl) X t) str then [] else [idx]) ++ check_sid_str htbl r (S idx)
+  end.
+
+Fixpoint check_sid_distinct (obs : list (N * name * list N)) (idx : nat) : list nat :=
+  match obs with
+  | [] => []
+  | (X, t, str) :: r =>
+    (if forallb (fun q => Bool.eqb (name_eqb str (snd q))
+                                   ((fst (fst q) =? X) && name_eqb (snd (fst q)) t)) r
+     then [] else [(1000 + idx)%nat]) ++ check_sid_distinct r (S idx)
+  end.
+
+Definition check_sid (htbl : list (name * N)) (obs : list (N * name * list N)) : list nat :=
+  check_sid_str htbl obs 0 ++ check_sid_distinct obs 0.
